@@ -15,7 +15,7 @@ import dataclasses
 
 from .source import src
 
-_IMPURE = (ast.Lambda, ast.Yield, ast.YieldFrom, ast.Await, ast.NamedExpr, ast.GeneratorExp)
+_IMPURE = (ast.Lambda, ast.Yield, ast.YieldFrom, ast.Await, ast.NamedExpr)
 _cache: dict = {}
 _keep: list = []
 
@@ -56,8 +56,9 @@ def _stmt(par, n):
 def _terms(e):
     """names and attribute/subscript chains read by expression e"""
     names, chains = set(), set()
+    bound = {x.id for x in ast.walk(e) if isinstance(x, ast.Name) and isinstance(x.ctx, ast.Store)}
     for x in ast.walk(e):
-        if isinstance(x, ast.Name):
+        if isinstance(x, ast.Name) and x.id not in bound:
             names.add(x.id)
         elif isinstance(x, (ast.Attribute, ast.Subscript)):
             chains.add(src(x))
@@ -115,7 +116,7 @@ def _one_pass(fn: ast.FunctionDef, keep=()) -> bool:
         if len(lst) != 1 or lst[0][0] is None or nm in params or nm in mutated or nm in keep:
             continue
         d, rhs = lst[0]
-        if any(isinstance(x, _IMPURE) for x in ast.walk(rhs)):
+        if any(isinstance(x, _IMPURE) for x in ast.walk(rhs)) or isinstance(rhs, ast.GeneratorExp):
             continue
         if isinstance(rhs, (ast.List, ast.Dict, ast.Set, ast.ListComp, ast.DictComp, ast.SetComp)) and len(uses.get(nm, [])) != 1:
             continue  # a container literal named once and used several times is one object, not several
@@ -258,3 +259,183 @@ def inlined(fn: ast.FunctionDef, keep=()) -> ast.FunctionDef:
 def inl(fi, keep=()):
     """FuncInfo whose node is the inlined copy."""
     return dataclasses.replace(fi, node=inlined(fi.node, keep))
+
+
+# ---------------------------------------------------------------- helper (procedure / expression) inlining
+class _Subst(ast.NodeTransformer):
+    def __init__(self, mapping: dict, rename: dict):
+        self.mapping, self.rename = mapping, rename
+
+    def visit_Name(self, n):
+        if n.id in self.mapping and isinstance(n.ctx, ast.Load):
+            return copy.deepcopy(self.mapping[n.id])
+        if n.id in self.rename:
+            return ast.copy_location(ast.Name(id=self.rename[n.id], ctx=n.ctx), n)
+        return n
+
+
+def _helper_of(ix, fi, call: ast.Call):
+    f = call.func
+    if isinstance(f, ast.Attribute) and isinstance(f.value, ast.Name) and fi.cls is not None and f.value.id in ("self", "cls", fi.cls.name):
+        h = fi.cls.methods.get(f.attr)
+        if h is None:
+            for c in ix.mro(fi.cls)[1:]:
+                if f.attr in c.methods:
+                    h = c.methods[f.attr]
+                    break
+        return h
+    if isinstance(f, ast.Name):
+        return fi.module.functions.get(f.id)
+    return None
+
+
+def _bind(h, call: ast.Call):
+    """param -> argument expression, or None when the call shape is not simple"""
+    a = h.node.args
+    if a.vararg or a.kwarg or any(isinstance(x, ast.Starred) for x in call.args) or any(k.arg is None for k in call.keywords):
+        return None
+    params = [x.arg for x in a.posonlyargs + a.args]
+    if h.kind in ("method", "classmethod") and params:
+        params = params[1:]
+    kwonly = [x.arg for x in a.kwonlyargs]
+    if len(call.args) > len(params):
+        return None
+    m = dict(zip(params, call.args))
+    for k in call.keywords:
+        if k.arg not in params + kwonly or k.arg in m:
+            return None
+        m[k.arg] = k.value
+    defaults = dict(zip(params[len(params) - len(a.defaults):], a.defaults))
+    for p, d in zip(kwonly, a.kw_defaults):
+        if d is not None:
+            defaults[p] = d
+    for p in params + kwonly:
+        if p not in m:
+            if p not in defaults:
+                return None
+            m[p] = defaults[p]
+    return m
+
+
+def _body_no_doc(fn):
+    b = list(fn.body)
+    if b and isinstance(b[0], ast.Expr) and isinstance(b[0].value, ast.Constant) and isinstance(b[0].value.value, str):
+        b = b[1:]
+    return b
+
+
+def _relocate(nodes, at):
+    for nd in nodes:
+        for x in ast.walk(nd):
+            if hasattr(x, "lineno") or isinstance(x, (ast.expr, ast.stmt)):
+                x.lineno = at.lineno
+                x.end_lineno = getattr(at, "end_lineno", at.lineno)
+                x.col_offset = getattr(at, "col_offset", 0)
+                x.end_col_offset = getattr(at, "end_col_offset", 0)
+
+
+_hcache: dict = {}
+
+
+def with_helpers(ctx, fi, exclude=(), only_private=True, depth=3):
+    """FuncInfo whose node is a copy of fi.node in which calls of small same-class / same-module helpers are expanded:
+    (1) `self._h(a, b)` as a statement, where _h returns nothing (raises / writes only) -> its body, parameters bound;
+    (2) a call of a helper whose body is a single `return E` -> E with the parameters substituted.
+    Locals of the helper are renamed apart.  The copy is then passed through `inlined`."""
+    key = (id(fi.node), tuple(exclude), only_private, depth)
+    if key in _hcache:
+        return _hcache[key]
+    fn = copy.deepcopy(fi.node)
+    counter = [0]
+
+    def eligible(h):
+        if h is None or h.node is fi.node:
+            return False
+        if only_private and not (h.name.startswith("_") and not h.name.startswith("__")):
+            return False
+        if h.name in exclude or h.kind in ("getter", "setter"):
+            return False
+        if any(isinstance(x, (ast.Yield, ast.YieldFrom, ast.Await)) for x in ast.walk(h.node)):
+            return False
+        return True
+
+    def expand_stmt_list(body, d):
+        i = 0
+        while i < len(body):
+            s = body[i]
+            for fld in ("body", "orelse", "finalbody"):
+                sub = getattr(s, fld, None)
+                if isinstance(sub, list) and sub and isinstance(sub[0], ast.stmt) and not isinstance(s, (ast.FunctionDef, ast.ClassDef, ast.AsyncFunctionDef)):
+                    expand_stmt_list(sub, d)
+            if isinstance(s, ast.Try):
+                for hd in s.handlers:
+                    expand_stmt_list(hd.body, d)
+            if isinstance(s, ast.Expr) and isinstance(s.value, ast.Call) and d > 0:
+                h = _helper_of(ctx.ix, fi, s.value)
+                if eligible(h):
+                    hb = _body_no_doc(h.node)
+                    rets = [r for r in walk_nested_free(h.node) if isinstance(r, ast.Return)]
+                    tail_ret = hb and isinstance(hb[-1], ast.Return) and hb[-1].value is None
+                    if all(r.value is None for r in rets) and len(rets) == (1 if tail_ret else 0):
+                        m = _bind(h, s.value)
+                        if m is not None:
+                            counter[0] += 1
+                            tag = f"__{h.name.strip('_')}{counter[0]}"
+                            stored = {x.id for x in ast.walk(h.node) if isinstance(x, ast.Name) and isinstance(x.ctx, ast.Store)}
+                            rename = {nm: nm + tag for nm in stored}
+                            pre = []
+                            mapping = {}
+                            for p, a in m.items():
+                                if p in stored or not isinstance(a, (ast.Name, ast.Attribute, ast.Constant, ast.Subscript)):
+                                    pre.append(ast.Assign(targets=[ast.Name(id=p + tag, ctx=ast.Store())], value=copy.deepcopy(a), lineno=s.lineno))
+                                    rename[p] = p + tag
+                                else:
+                                    mapping[p] = a
+                            new = [_Subst(mapping, rename).visit(copy.deepcopy(x)) for x in (hb[:-1] if tail_ret else hb)]
+                            new = pre + new
+                            _relocate(new, s)
+                            for nd in new:
+                                ast.fix_missing_locations(nd)
+                            expand_stmt_list(new, d - 1)
+                            body[i:i + 1] = new or [ast.copy_location(ast.Pass(), s)]
+                            i += max(len(new), 1)
+                            continue
+            i += 1
+
+    def walk_nested_free(f):
+        stack = list(f.body)
+        while stack:
+            x = stack.pop()
+            yield x
+            for c in ast.iter_child_nodes(x):
+                if not isinstance(c, (ast.FunctionDef, ast.AsyncFunctionDef, ast.Lambda, ast.ClassDef)):
+                    stack.append(c)
+
+    class ExprExpand(ast.NodeTransformer):
+        def __init__(self, d):
+            self.d = d
+
+        def visit_Call(self, c):
+            self.generic_visit(c)
+            if self.d <= 0:
+                return c
+            h = _helper_of(ctx.ix, fi, c)
+            if not eligible(h):
+                return c
+            hb = _body_no_doc(h.node)
+            if len(hb) == 1 and isinstance(hb[0], ast.Return) and hb[0].value is not None:
+                m = _bind(h, c)
+                if m is None:
+                    return c
+                e = _Subst(m, {}).visit(copy.deepcopy(hb[0].value))
+                _relocate([e], c)
+                return ExprExpand(self.d - 1).visit(e)
+            return c
+
+    expand_stmt_list(fn.body, depth)
+    fn = ExprExpand(depth).visit(fn)
+    ast.fix_missing_locations(fn)
+    out = dataclasses.replace(fi, node=inlined(fn))
+    _hcache[key] = out
+    _keep.append(fi.node)
+    return out
